@@ -191,6 +191,12 @@ def pyfftw_call(array_in, array_out, direction='forward', axes=None,
         plan_arr_in = array_in
         flags = [_flag_odl_to_pyfftw(planning_effort)]
 
+    # Multi-dimensional c2r transforms always destroy their input when
+    # executed, so they need to run on a copy
+    if (not array_in_copied and direction == 'backward' and halfcomplex and
+            array_in.ndim != 1):
+        array_in = array_in.copy()
+
     if fftw_plan_in is None:
         if threads is None:
             if plan_arr_in.size <= 4096:  # Trade-off wrt threading overhead
